@@ -110,6 +110,37 @@ impl DivSpecImpl for U256 {
 //%endif
     open spec fn div_spec(self, rhs: U256) -> U256 { arbitrary() }
 }
+// non-aborting primitives of bigint::U256 (wrap modulo 2^256 and report the overflow)
+impl U256 {
+    #[verifier::external_body] pub fn overflowing_add(self, rhs: U256) -> (r: (U256, bool))
+        ensures r.1 == (self.v() + rhs.v() >= p256()), r.0.v() == (self.v() + rhs.v()) % p256() { unimplemented!() }
+    #[verifier::external_body] pub fn overflowing_sub(self, rhs: U256) -> (r: (U256, bool))
+        ensures r.1 == (self.v() < rhs.v()), r.0.v() == (if self.v() >= rhs.v() { (self.v() - rhs.v()) as nat } else { (p256() + self.v() - rhs.v()) as nat }) { unimplemented!() }
+    #[verifier::external_body] pub fn overflowing_mul(self, rhs: U256) -> (r: (U256, bool))
+        ensures r.1 == (self.v() * rhs.v() >= p256()), r.0.v() == (self.v() * rhs.v()) % p256() { unimplemented!() }
+    #[verifier::external_body] pub fn zero() -> (r: U256) ensures r.v() == 0 { unimplemented!() }
+    #[verifier::external_body] pub fn one() -> (r: U256) ensures r.v() == 1 { unimplemented!() }
+    #[verifier::external_body] pub fn max_value() -> (r: U256) ensures r.v() == p256() - 1 { unimplemented!() }
+    #[verifier::external_body] pub fn low_u64(&self) -> (r: u64) ensures r as nat == self.v() % p64() { unimplemented!() }
+}
+impl ops::Rem for U256 { type Output = U256;
+    #[verifier::external_body]
+    fn rem(self, rhs: U256) -> (r: U256)
+//%if A
+        ensures r.v() == self.v() % rhs.v()
+//%else
+        ensures rhs.v() != 0, r.v() == self.v() % rhs.v()
+//%endif
+    { unimplemented!() } }
+impl RemSpecImpl for U256 {
+    open spec fn obeys_rem_spec() -> bool { false }
+//%if A
+    open spec fn rem_req(self, rhs: U256) -> bool { rhs.v() != 0 }
+//%else
+    open spec fn rem_req(self, rhs: U256) -> bool { true }
+//%endif
+    open spec fn rem_spec(self, rhs: U256) -> U256 { arbitrary() }
+}
 // Rust's abort primitives
 //%if A
 pub fn rt_assert(c: bool) requires c { }
